@@ -3,7 +3,8 @@
    over Deps.v's alphabet, is PyPreludeRunTaskDeps.v - same names, same generated text).
 
    The statement monad is PyStm.v with E = Pipeline.eff and X = rt_exn below.  Objects: the receiver `self` is the
-   configuration pcfg plus two Booleans the model does not look at (is the task already known, validate_params); the
+   configuration pcfg plus what the model does not look at (is the task already known, validate_params, the function
+   object its per-name caches were built for); the
    task function `target`, its dependency graph and the resolver context made from it ARE the configuration too: what
    they do when called / resolved / awaited / closed is what the configuration says.  Awaitables are values (rt_fut):
    creating a coroutine object or wrapping one in asyncio.wait_for has no effect, `await` is where things happen, in
@@ -50,11 +51,18 @@ Definition try_else {R A B} := @try_else_on eff rt_exn R A B is_exception.
 Definition try_except {R A} := @try_except_on eff rt_exn R A is_exception.
 
 (* ------------------------------------------------------------------------------------------ objects *)
+(* the identity of a Python object (id(x)): `a is b` holds iff the two are the same object *)
+Notation rt_obj := (nat) (only parsing).
 Record rt_self := mkself {
   rs_cfg : pcfg;
   rs_known : bool;          (* message.task_name in self.known_tasks *)
-  rs_validate : bool }.     (* self.validate_params *)
-Record rt_func := mkfunc { fn_cfg : pcfg }.              (* the task function: what it does is what the configuration says *)
+  rs_validate : bool;       (* self.validate_params *)
+  rs_prepared : option rt_obj }.   (* self.prepared_handlers.get(message.task_name): the function object the caches of this
+                                      name were built for, None if the table has no entry.  ANY content: the model does not
+                                      look at it *)
+(* the task function: what it does is what the configuration says; which object it is; the object its attribute
+   `original_func` holds, if it has that attribute (a decorated task has, a plain function has not) *)
+Record rt_func := mkfunc { fn_cfg : pcfg; fn_obj : rt_obj; fn_original : option rt_obj }.
 Notation rt_msg := (msg) (only parsing).
 Notation rt_res := (res) (only parsing).
 Notation rt_val := (nat) (only parsing).                                (* return values are identifiers, as in Pipeline.bout *)
@@ -98,7 +106,17 @@ Definition dependency_graphs (s : rt_self) : rt_self := s.
 Definition broker_of (s : rt_self) : rt_self := s.       (* self.broker: the same configuration *)
 Definition executor_of (s : rt_self) : rt_executor := tt.
 Definition propagate_exceptions (s : rt_self) : bool := c_prop (rs_cfg s).
-(*  self._prepare_task(name, target): fills the tables below for a task seen for the first time; no event *)
+(*  self.prepared_handlers.get(name) ; `target` as an operand of `is` ; getattr(target, "original_func", target) ;
+    `a is b` with a an Optional function object (None is no function object), `a is not b` = negb of it *)
+Definition prepared_handlers (s : rt_self) : rt_self := s.
+Definition handlers_get (s : rt_self) (n : rt_name) : option rt_obj := rs_prepared s.
+Definition func_object (f : rt_func) : rt_obj := fn_obj f.
+Definition original_func_or_self (f : rt_func) : rt_obj :=
+  match fn_original f with Some o => o | None => fn_obj f end.
+Definition object_is (a : option rt_obj) (b : rt_obj) : bool :=
+  match a with Some x => Nat.eqb x b | None => false end.
+(*  self._prepare_task(name, target): fills the tables below (and prepared_handlers) for a task seen for the first time
+    or registered again with another function; no event *)
 Definition prepare_task (s : rt_self) (n : rt_name) (f : rt_func) : RM unit := ret tt.
 Definition signatures_get (s : rt_self) (n : rt_name) : option rt_sig := Some tt.
 Definition hints_get (s : rt_self) (n : rt_name) : option rt_hints := Some tt.
